@@ -2,6 +2,7 @@
 from lib import *  # noqa
 import C10
 import C03
+import dsarules
 
 TECHNIQUE = ("buffer-tag typestate over the read loop (value-set + typestate dataflow), edge-cut gates for complete-frame delivery, provenance of the consumed byte count in the flush loop, guard-fact checks of the UDP synthetic framing and zero-length/TC handling"
              ", must-set of the byte-count out-parameter, exact guard on the TCP re-read decision, reachability 'received bytes -> teardown' in the read loop, failure-path restore of the out buffer (must-pass-through)")
@@ -511,5 +512,7 @@ def run(prog, R, tier):
     C10.r_announce(prog, R, rid="R-C20-WRITEINTEREST")
     r_reread(prog, R)
     r_readloss(prog, R)
+    # the read loop writes straight into the buffer's spare room: what it wrote must be accounted, whatever the read size
+    dsarules.r_append_finish(prog, R, "R-C20-APPENDFIN")
     # a write that fails half way must not leave its length prefix / partial message in the connection's out buffer (framing of what follows)
     C03.r_atomic(prog, R, rid="R-C20-ATOMIC")
